@@ -922,6 +922,16 @@ fn prepare_new_auth(room: &Room, new_auth: &AuthorisationNode) -> Result<()> {
             ));
         }
     }
+    for new_user_admin in &new_auth.user_admin_nodes {
+        if !room.is_admin(
+            &new_user_admin.node.verifying_key,
+            new_user_admin.node.mdate,
+        ) {
+            return Err(Error::InvalidNode(
+                "RoomNode Authorisation new User Administrator is not authorised".to_string(),
+            ));
+        }
+    }
     Ok(())
 }
 
